@@ -155,6 +155,8 @@ def _main(a, prop, tier, seed, t0):
             functions.append(f)
         for x in r.get("assumptions", []):
             assumptions.add(x)
+        if r.get("renamed_locals"):
+            assumptions.add(f"contract {ident} re-anchored: locals renamed since the baseline, matched by position {r['renamed_locals']}")
         for u in r.get("used_contracts", []):
             if u.endswith("[assumed]"):
                 assumed_contracts.add(u)
@@ -173,6 +175,9 @@ def _main(a, prop, tier, seed, t0):
                 by_backend[o["backend"]] = by_backend.get(o["backend"], 0) + 1
                 if len(samples) < 12 and o["kind"] in ("post", "inv.preserve", "raises", "pre"):
                     samples.append({"obligation": o["id"], "verdict": "proved", "backend": o["backend"]})
+            elif r.get("renamed_locals"):
+                # the contract was re-anchored by a positional renaming of locals (a guess): its failures decide nothing
+                undecided.append(f"{o['id']}: {o['status']} after re-anchoring the contract to renamed locals {r['renamed_locals']}")
             elif o["status"] == "refuted":
                 violations.append({"obligation": o["id"], "contract": ident, "target": key[0], "model": o.get("model", ""),
                                    "what": f"obligation {o['id']} has a counter-model"})
